@@ -265,6 +265,13 @@ def emit_trait(t):
             w("            let getter = v.%s();" % m.name)
             w("            if getter as usize != words[%d] { return Err((\"vtable:order\".into(), format!(\"word %d of the vtable of %s is not the entry for method `%s` (declaration order)\"))); }" % (j, j, t.name, m.name))
             w("            let f = unsafe { retype(&getter, words[%d]) };" % j)
+        if m.ret.startswith("int_") or m.ret == "no_int":
+            # the C signature of integer-coded results (extra out-parameter, i32 return) is itself what C03/C13 judge: this
+            # check must keep compiling whatever the generator does with it, so the slot is compared but not called here
+            w("            let _ = f;")
+            w("            seen_ids.push(%d);" % (t.idx * 16 + j))
+            w("        }")
+            continue
         w("            ptr_reset(); set_sel(0);")
         exprs = []
         for i, a in enumerate(m.args):
